@@ -174,6 +174,162 @@ def k1(shape):
         sim.close()
 
 
+# -- K2 ----------------------------------------------------------------------------------------
+
+def k2(shape):
+    '''One-block inductive step of advance_block from an arbitrary valid pre-state: up to two live
+    outputs with every field symbolic (hash prefix, index u32, script hash 11 bytes, tx number,
+    value), each either still in the UTXO cache or already flushed to the tables (by the real
+    flush_utxo_db); symbolic height, counters and tip; the next block (coinbase + one transaction
+    spending a solver-chosen subset of the live outputs) is applied by the real advance_block.
+    The abstraction of the post-state (cache + table rows - pending deletes, observed through
+    spend_utxo's own lookup path and the cache) must be exactly reference(pre, block).'''
+    import electrumx.lib.util as util
+    from electrumx.server.db import FlushData
+    from electrumx.lib.tx import Tx, TxInput, TxOutput
+    eng = engine()
+    T = shape['tx_count']
+    sim = chain.Sim(reorg_limit=10, daemon_height=0)
+    sim.collide = {frozenset(('pre0', 'pre1'))}
+    try:
+        sim.open()
+        db, bp = sim.db, sim.bp
+        H = eng.fresh_int('height', 0, None)
+        tip = eng.fresh_bytes('tip', 32)
+        ucount = eng.fresh_int('utxo_count', len(shape['pre']), None)
+        csize = eng.fresh_int('chain_size', 0, None)
+        st = bp.state
+        st.height, st.tx_count, st.tip, st.utxo_count, st.chain_size = H, T, tip, ucount, csize
+        db.tx_counts = []
+        sim.daemon._h = H + 1
+        pre = []
+        for i, where in enumerate(shape['pre']):
+            h = sim.new_hash(f'pre{i}')
+            r = dict(h=h, idx=eng.fresh_word(f'pre{i}_idx', 32), hx=eng.fresh_bytes(f'pre{i}_hx', 11),
+                     num=eng.fresh_word(f'pre{i}_num', 40), val=eng.fresh_word(f'pre{i}_val', 64), where=where)
+            if not sim.native:
+                eng.assume(r['num'] < T)
+            r['key'] = h + util.pack_le_uint32(r['idx'])
+            r['cv'] = r['hx'] + util.pack_le_uint64(r['num'])[:5] + util.pack_le_uint64(r['val'])
+            pre.append(r)
+        if len(pre) == 2 and not sim.native:
+            a, b = pre
+            eng.assume(z3_not(deep_eq(a['num'], b['num'])))       # different transactions
+        def fs_tx_hash(tx_num):
+            for r in pre:
+                if bool(tx_num == r['num']):
+                    return r['h'], 0
+            return None, 0
+        db.fs_tx_hash = fs_tx_hash
+        flushed = {r['key']: r['cv'] for r in pre if r['where'] == 'db'}
+        if flushed:
+            s0 = st.copy()
+            s0.height = 0
+            db.flush_utxo_db(FlushData(s0, [], [], [], flushed, []))
+            db.state.height = -1
+        for r in pre:
+            if r['where'] == 'cache':
+                bp.utxo_cache[r['key']] = r['cv']
+        # the block: coinbase paying a symbolic script, one transaction spending a chosen subset
+        subsets = [[0], [1], [0, 1], [1, 0], []][:(5 if len(pre) == 2 else 0)] or ([[0], []] if pre else [[]])
+        spend = subsets[eng.choice('spend', len(subsets))]
+        cb_hash, tx_hash = sim.new_hash('cb'), sim.new_hash('tx')
+        s_cb = eng.fresh_bytes('cb_script', 3) if shape.get('sym_cb') else sim.wrap(chain.SCRIPTS['B'])
+        s_out = eng.fresh_bytes('out_script', 3)
+        v_cb, v_out = eng.fresh_word('cb_val', 64), eng.fresh_word('out_val', 64)
+        cb = Tx(1, [TxInput(sim.wrap(chain.ZERO32), chain.MINUS_1, b'', 0)], [TxOutput(v_cb, s_cb)], 0)
+        tx = Tx(1, [TxInput(pre[i]['h'], pre[i]['idx'], b'', 0) for i in spend], [TxOutput(v_out, s_out), TxOutput(v_cb, sim.wrap(chain.SCRIPTS['A']))], 0)
+        header = sim.wrap(b'\x01\x00\x00\x00') + tip + bytes(44)
+        blk = chain.StubBlock(H + 1, header, 777, [(cb, cb_hash), (tx, tx_hash)])
+        activation = sim.activation
+        bp.advance_block(blk)
+        # reference
+        created = []
+        for (t, th, num) in ((cb, cb_hash, T), (tx, tx_hash, T + 1)):
+            for j, o in enumerate(t.outputs):
+                if not chain.ref_unspendable(o.pk_script, H + 1, activation):
+                    created.append(dict(key=th + util.pack_le_uint32(j), hx=chain.ref_hashX(o.pk_script), num=num, val=o.value))
+        eng.prove(z3_and([deep_eq(st.height, H + 1), st.tx_count == T + 2, deep_eq(st.chain_size, csize + 777),
+                          deep_eq(st.utxo_count, ucount - len(spend) + len(created)),
+                          deep_eq(st.tip, sim.coin.header_hash(header))]),
+                  'K2: counters / tip / height after advance_block wrong', {'signature': 'K2-state'})
+        # undo information: the spent cache values in spend order
+        eng.prove(len(bp.undo_infos) == 1 and deep_eq(list(bp.undo_infos[0][0]), [pre[i]['cv'] for i in spend]) is not False
+                  and deep_eq(list(bp.undo_infos[0][0]), [pre[i]['cv'] for i in spend]),
+                  'K2: undo information is not the spent values in spend order', {'signature': 'K2-undo'})
+        # history: one entry per (transaction, distinct script hash touched)
+        exp_hist = {}
+        for num, hxs in ((T, [c['hx'] for c in created if c['num'] == T]),
+                         (T + 1, [pre[i]['hx'] for i in spend] + [c['hx'] for c in created if c['num'] == T + 1])):
+            seen = []
+            for hx in hxs:
+                if not any(bool(hx == s) for s in seen):
+                    seen.append(hx)
+            for hx in seen:
+                exp_hist.setdefault(id(hx), (hx, []))[1].append(num)
+        classes = []
+        for hx, nums in exp_hist.values():
+            for c in classes:
+                if bool(c[0] == hx):
+                    c[1].extend(nums)
+                    break
+            else:
+                classes.append([hx, list(nums)])
+        unfl = db.history.unflushed
+        eng.prove(len(unfl) == len(classes), 'K2: unflushed history has a wrong number of script hashes',
+                  {'signature': 'K2-history-keys'})
+        for hx, nums in classes:
+            got = unfl.get(hx)
+            expb = b''.join(util.pack_le_uint64(n)[:5] for n in sorted(nums))
+            eng.prove(got is not None and deep_eq(chain._bytes(got), expb) is not False and deep_eq(chain._bytes(got), expb),
+                      'K2: unflushed history entries wrong', {'signature': 'K2-history'})
+        eng.prove(all(any(bool(hx == t) for t in bp.touched) for hx, _n in classes), 'K2: touched set misses a script hash',
+                  {'signature': 'K2-touched'})
+        # abstraction of the post-state: every expected live output can be spent exactly once with its value,
+        # every spent one cannot
+        deletes_after_block = list(bp.db_deletes)
+        cache_after_block = list(bp.utxo_cache)
+        live = [r for i, r in enumerate(pre) if i not in spend] + created
+        for r in live:
+            k = r['key']
+            cv = r.get('cv') or (r['hx'] + util.pack_le_uint64(r['num'])[:5] + util.pack_le_uint64(r['val']))
+            got = bp.spend_utxo(k[:32], util.unpack_le_uint32(k[32:])[0] if not isinstance(k, bytes) else int.from_bytes(k[32:], 'little'))
+            eng.prove(deep_eq(got, cv), 'K2: a live output is missing or has a wrong value after the block',
+                      {'signature': 'K2-live'})
+        for i in spend:
+            r = pre[i]
+            suffix = util.pack_le_uint32(r['idx']) + util.pack_le_uint64(r['num'])[:5]
+            if r['where'] == 'cache':
+                # gone from the cache (a second spend is not required to fail: the indexer assumes a valid
+                # chain and resolves a lone prefix candidate without verification)
+                eng.prove(all(bool(k != r['key']) for k in cache_after_block), 'K2: a spent output is still cached',
+                          {'signature': 'K2-still-cached'})
+            else:
+                # still in the tables until the next flush: exactly its two rows are scheduled for deletion
+                hk, uk = b'h' + r['h'][:4] + suffix, b'u' + r['hx'] + suffix
+                eng.prove(z3_and([z3_or([deep_eq(d, hk) for d in deletes_after_block]),
+                                  z3_or([deep_eq(d, uk) for d in deletes_after_block])]),
+                          'K2: an output spent from the tables is not scheduled for deletion', {'signature': 'K2-deletes'})
+        eng.prove(len(deletes_after_block) == 2 * sum(1 for i in spend if pre[i]['where'] == 'db'),
+                  'K2: wrong number of rows scheduled for deletion', {'signature': 'K2-deletes-count'})
+        symx.observe('spend', list(spend))
+    finally:
+        sim.close()
+
+
+def k2_shapes(tier):
+    Ts = [2, 256] if tier == 'quick' else [2, 255, 65536, (1 << 32) - 1, (1 << 40) - 4]
+    out = []
+    for T in Ts:
+        for pre in (['cache', 'db'], ['db', 'db'], ['cache', 'cache']):
+            if tier == 'quick' and (T != 2 or pre != ['cache', 'db']) and (T, pre) != (256, ['db', 'db']):
+                continue
+            out.append({'tx_count': T, 'pre': pre})
+    if tier == 'thorough':
+        out.append({'tx_count': 2, 'pre': ['cache', 'db'], 'sym_cb': True})
+    return out
+
+
 KERNELS = [
     Kernel('K3', k3, k3_shapes,
            desc='symbolic chain from genesis through advance_block / flush_dbs, UTXO read paths vs reference',
@@ -194,6 +350,19 @@ KERNELS = [
            assumptions=['LevelDB modelled by MemStore (sorted iteration, atomic batches)',
                         'meta files modelled by MemFS'],
            witnesses=1, prescribe=('sha256',), split_depth=14),
+    Kernel('K2', k2, k2_shapes,
+           desc='one-block inductive step of advance_block from an arbitrary valid pre-state',
+           encodes=['electrumx/server/block_processor.py:BlockProcessor.advance_block', 'spend_utxo',
+                    'electrumx/server/history.py:History.add_unflushed', 'electrumx/server/db.py:DB.flush_utxo_db',
+                    'min_undo_height'],
+           bounds='pre-state: 2 live outputs, each in the cache or flushed, all fields symbolic (hash prefix, index u32, '
+                  'script hash 11 B, tx number 40 bit below the count, value u64; their prefixes may collide), height, '
+                  'utxo_count, chain_size any integers, tip 32 symbolic bytes, tx_count at byte-boundary values; block: '
+                  'coinbase + one transaction spending any ordered subset, symbolic scripts and values, activation '
+                  'height any integer',
+           outside='larger footprints; the flush after the step (K1 / K3); tx_count values other than those listed',
+           assumptions=['the tx-number -> hash relation used for collision resolution is the relation of the live records'],
+           witnesses=1, prescribe=('sha256',), split_depth=10),
     Kernel('K1', k1, lambda tier: [{'n': 2}] + ([{'n': 3}] if tier == 'thorough' else []),
            desc='UTXO table layout round trip with every key/value byte symbolic',
            encodes=['electrumx/server/db.py:DB.flush_utxo_db', 'all_utxos', 'lookup_utxos',
